@@ -1,11 +1,11 @@
-(* C03 / K43: the code emitted by the (translated) unpack_named_tuple computes the model.
+(* C03 / K45: the code emitted by the (translated) unpack_named_tuple computes the model.
    as_list: TyModel.nt_items with [nt_exhausted (has_default fds)] -- trailing defaults exactly when the input is
             exhausted at a reading position; an IndexError raised inside an item propagates (fix 8ccb0df);
    as_dict: TyNtDict.nd_fields -- "in" guards exactly on the defaulted fields (fix 28df7ca).
-   Re-checked on every run against coq/gen/K43.v. *)
+   Re-checked on every run against coq/gen/K45.v. *)
 From Coq Require Import List Bool ZArith String Arith Lia.
 From Verif Require Import Core TupleIdx TyModel TyProofs TyNtDict NtEmit.
-From VerifGen Require Import K43.
+From VerifGen Require Import K45.
 Import ListNotations.
 
 Lemma nth_skipn_some {X} (l: list X) k x : nth_error l k = Some x -> skipn k l = x :: skipn (S k) l.
@@ -77,13 +77,13 @@ Section AsList.
   Qed.
 
   (* the emitted as_list code IS the positional walk of TyModel *)
-  Theorem k43_as_list : forall (fds: list sfield) (in_defaults: string -> bool),
+  Theorem k45_as_list : forall (fds: list sfield) (in_defaults: string -> bool),
     run_code (ev_list run konst l) has (List.length l)
-             (k43_indices false (map sf_name fds))
-             (k43_code false (negb (has_default fds)) in_defaults (map sf_name fds)) fds
+             (k45_indices false (map sf_name fds))
+             (k45_code false (negb (has_default fds)) in_defaults (map sf_name fds)) fds
       = nt_items run konst (nt_exhausted (has_default fds)) fds l.
   Proof.
-    intros fds ind. unfold k43_indices, k43_code, run_code.
+    intros fds ind. unfold k45_indices, k45_code, run_code.
     destruct (has_default fds); cbn [negb].
     - rewrite run_try_items. reflexivity.
     - rewrite run_call_items. reflexivity.
@@ -127,14 +127,14 @@ Section AsDict.
   Qed.
 
   (* the emitted as_dict code IS the by-name walk of TyNtDict: "in" guards exactly on the defaulted fields *)
-  Theorem k43_as_dict : forall (fds: list sfield) (in_defaults: string -> bool) (vlen: nat),
+  Theorem k45_as_dict : forall (fds: list sfield) (in_defaults: string -> bool) (vlen: nat),
     (forall f, In f fds -> in_defaults f.(sf_name) = match f.(sf_default) with Some _ => true | None => false end) ->
     run_code (ev_dict run konst inp) (nd_has inp) vlen
-             (k43_indices true (map sf_name fds))
-             (k43_code true (negb (has_default fds)) in_defaults (map sf_name fds)) fds
+             (k45_indices true (map sf_name fds))
+             (k45_code true (negb (has_default fds)) in_defaults (map sf_name fds)) fds
       = nd_fields run konst inp fds.
   Proof.
-    intros fds ind vlen Hd. unfold k43_indices, k43_code, run_code.
+    intros fds ind vlen Hd. unfold k45_indices, k45_code, run_code.
     destruct (has_default fds) eqn:Eh; cbn [negb].
     - apply run_kw_fields. exact Hd.
     - apply run_call_fields. apply has_default_false. exact Eh.
